@@ -351,6 +351,8 @@ pub struct Lookups;
 
 pub struct LCase {
     pub input: String,
+    /// the two counterpart types as written
+    pub cps: [&'static str; 2],
     pub family: &'static str,
     /// (slot: None = default | Some(cp), marker token) in written order
     pub instrs: Vec<(Option<&'static str>, String)>,
@@ -390,7 +392,10 @@ impl Space for Lookups {
         if family == "variant-type_hint" && present[2] {
             return ctx.reject(); // two distinguishable hint forms only: default and T
         }
-        let slots: Vec<(Option<&'static str>, usize)> = [(None, 1001usize), (Some("T"), 1002), (Some("U"), 1003)].iter().enumerate().filter(|(i, _)| present[*i]).map(|(_, x)| *x).collect();
+        // how the two counterparts are spelled: plain | same last segment in different modules | one generic type with
+        // different arguments (seeds C06-06, C11-07: lookups keyed by a shortened spelling of the type)
+        let cps: [&'static str; 2] = [["T", "U"], ["a::K", "b::K"], ["M<i32>", "M<f32>"]][ctx.choose(3)];
+        let slots: Vec<(Option<&'static str>, usize)> = [(None, 1001usize), (Some(cps[0]), 1002), (Some(cps[1]), 1003)].iter().enumerate().filter(|(i, _)| present[*i]).map(|(_, x)| *x).collect();
         // every written order
         let perm = ctx.permutation(slots.len());
         let mut instrs = vec![];
@@ -402,10 +407,16 @@ impl Space for Lookups {
             text.push(tmpl.replace("{d}", &d).replace("{m}", &m.to_string()).replace("{h}", h));
             instrs.push((slot, mk.replace("{m}", &m.to_string()).replace("{hm}", hm)));
         }
-        let input = host.replace("{TYPE}", &text.join(" ")).replace("{MEMBER}", &text.join(" "));
-        let mut tags = vec![format!("family={}", family)];
+        let input = host
+            .replace("(T)", &format!("({})", cps[0]))
+            .replace("(T,", &format!("({},", cps[0]))
+            .replace("(U)", &format!("({})", cps[1]))
+            .replace("(U,", &format!("({},", cps[1]))
+            .replace("{TYPE}", &text.join(" "))
+            .replace("{MEMBER}", &text.join(" "));
+        let mut tags = vec![format!("family={}", family), format!("counterparts={}+{}", cps[0], cps[1])];
         tags.push(format!("order={}", instrs.iter().map(|(s, _)| s.unwrap_or("default")).collect::<Vec<_>>().join(">")));
-        Some(LCase { input, family, instrs, tags })
+        Some(LCase { input, cps, family, instrs, tags })
     }
     fn check(&self, c: LCase, choices: &[u32], rep: &Report) {
         let space = self.name();
@@ -422,9 +433,10 @@ impl Space for Lookups {
         };
         rep.validate(1);
         let mut sig = vec![];
-        for cp in ["T", "U"] {
+        for cp in c.cps {
             let expected: Option<&String> = c.instrs.iter().find(|(s, _)| *s == Some(cp)).or_else(|| c.instrs.iter().find(|(s, _)| s.is_none())).map(|x| &x.1);
-            let mine: Vec<&ImplIR> = impls.iter().filter(|i| i.trait_args.first().map(|a| a.trim_start_matches("& ") == cp).unwrap_or(false)).collect();
+            let cp_canon = crate::xp::atoms_of_str(cp).map(|a| a.join(" ")).unwrap_or_default();
+            let mine: Vec<&ImplIR> = impls.iter().filter(|i| i.trait_args.first().map(|a| a.trim_start_matches("& ") == cp_canon).unwrap_or(false)).collect();
             if mine.is_empty() {
                 rep.fail(fail(&space, choices, &c.input, &c.tags, "missing-impl", format!("no impl for counterpart {}", cp)));
                 continue;
